@@ -375,6 +375,8 @@ def _inline_combinator(fb, body, blocks, locals_, vars_, i, t, name):
             other['st'].append({'ln': ln, 'lhs': copy.deepcopy(dest),
                                 'rv': {'k': 'agg', 'ak': 'adt', 'adt': how[1], 'var': how[2], 'fields': ['0'],
                                        'ops': [{'mv': {'l': recv, 'p': ['d:' + ovar, 'f:0'], 'e': [adt]}}]}})
+    for st_ in other['st']:
+        st_['inl'] = cb.nid
     b_other = len(blocks)
     blocks.append(other)
     # the call site becomes the test
